@@ -371,7 +371,9 @@ func loadKnown() (kf knownFile) {
 	return
 }
 
-var crashRe = regexp.MustCompile(`(?m)^(fatal error: .*|panic: .*|runtime: goroutine stack exceeds.*|SIGSEGV.*|unexpected fault address.*)$`)
+// a crash of the child process: Go runtime fatal errors / uncaught panics, or a zap Fatal log line (zap's Fatal calls
+// os.Exit(1) after writing the entry)
+var crashRe = regexp.MustCompile(`(?m)^(fatal error: .*|panic: .*|runtime: goroutine stack exceeds.*|SIGSEGV.*|unexpected fault address.*|\S+\s+FATAL\s+.*)$`)
 
 func parent(spec Spec) {
 	start := time.Now()
@@ -439,7 +441,13 @@ func parent(spec Spec) {
 					tail = tail[:200000]
 				}
 				os.WriteFile(dump, []byte(tail), 0o644)
-				crashes = append(crashes, Violation{Key: "process-crash:" + firstAnySyncFrame(se), What: m, Replay: map[string]string{"dump": dump}})
+				site := firstAnySyncFrame(se)
+				if strings.Contains(m, "\tFATAL\t") || strings.Contains(m, " FATAL ") {
+					if f := strings.Fields(m); len(f) >= 3 {
+						site = "log.Fatal:" + strings.Join(f[2:min(len(f), 7)], " ")
+					}
+				}
+				crashes = append(crashes, Violation{Key: "process-crash:" + site, What: m, Replay: map[string]string{"dump": dump}})
 				continue
 			}
 			fmt.Fprintf(os.Stderr, "shard %d failed: %v\n%s\n", i, cr.err, tailStr(se, 4000))
